@@ -220,6 +220,7 @@ pub fn run() {
   ];
   (0..dvals.len()).into_par_iter().for_each(|i| {
     let evs: Vec<Evaluator> = cmp_ops.iter().map(|(op, _)| prep(&format!("a {} b", op))).collect();
+    let uevs: Vec<Evaluator> = cmp_ops.iter().take(4).map(|(op, _)| prep(&format!("a in ({} b)", op))).collect();
     let (ra, va) = &dvals[i];
     for (rb, vb) in &dvals {
       cnt.cases.fetch_add(1, Ordering::Relaxed);
@@ -228,6 +229,10 @@ pub fn run() {
       for (k, (op, f)) in cmp_ops.iter().enumerate() {
         let what = format!("date(\"{}\") {} date(\"{}\")", print_date(ra), op, print_date(rb));
         expect(&run, &cnt, &format!("date-comparison:{}", op), &what, &evs[k](&s), &f(o).to_string(), json!({"engine":"c15","text":what}));
+        if k < 4 {
+          let what = format!("date(\"{}\") in ({} date(\"{}\"))", print_date(ra), op, print_date(rb));
+          expect(&run, &cnt, &format!("date-comparison-as-unary-test:{}", op), &what, &uevs[k](&s), &f(o).to_string(), json!({"engine":"c15","text":what}));
+        }
       }
     }
   });
@@ -312,6 +317,7 @@ pub fn run() {
   let n_dts = dts.len();
   (0..dts.len()).into_par_iter().for_each(|i| {
     let evs: Vec<Evaluator> = cmp_ops.iter().map(|(op, _)| prep(&format!("a {} b", op))).collect();
+    let uevs: Vec<Evaluator> = cmp_ops.iter().take(4).map(|(op, _)| prep(&format!("a in ({} b)", op))).collect();
     let e_sub = prep("a - b");
     let e_between = prep("a between b and c");
     let e_in = prep("a in [b..c]");
@@ -324,6 +330,10 @@ pub fn run() {
       for (k, (op, f)) in cmp_ops.iter().enumerate() {
         let what = format!("@\"{}\" {} @\"{}\"", ta, op, tb);
         expect(&run, &cnt, &format!("date-time-comparison:{}:{}", op, zone_class), &what, &evs[k](&s), &f(o).to_string(), json!({"engine":"c15","text":what}));
+        if k < 4 {
+          let what = format!("@\"{}\" in ({} @\"{}\")", ta, op, tb);
+          expect(&run, &cnt, &format!("date-time-comparison-as-unary-test:{}:{}", op, zone_class), &what, &uevs[k](&s), &f(o).to_string(), json!({"engine":"c15","text":what}));
+        }
       }
       let what = format!("@\"{}\" - @\"{}\"", ta, tb);
       let sub_class = if (ia - ib).abs() > i64::MAX as i128 { "difference-beyond-64-bits-of-nanoseconds".to_string() } else { zone_class.to_string() };
@@ -425,6 +435,9 @@ pub fn run() {
     let e_sub = prep("a - b");
     let e_neg = prep("-a");
     let evs: Vec<Evaluator> = cmp_ops.iter().map(|(op, _)| prep(&format!("a {} b", op))).collect();
+    let uevs: Vec<Evaluator> = cmp_ops.iter().take(4).map(|(op, _)| prep(&format!("a in ({} b)", op))).collect();
+    let e_btw = prep("a between b and b");
+    let e_ivl = prep("a in [b..b]");
     let e_comp = if kind == "dt-duration" { prep("[a.days, a.hours, a.minutes, a.seconds]") } else { prep("[a.years, a.months]") };
     for (na, va) in vals.iter() {
       cnt.cases.fetch_add(1, Ordering::Relaxed);
@@ -470,7 +483,16 @@ pub fn run() {
         for (k, (op, f)) in cmp_ops.iter().enumerate() {
           let what = format!("@\"{}\" {} @\"{}\"", printer(*na), op, printer(*nb));
           expect(&run, &cnt, &format!("{}:comparison:{}", kind, op), &what, &evs[k](&s), &f(o).to_string(), json!({"engine":"c15","text":what}));
+          // the same comparison written as a unary test, and as the matching interval
+          if k < 4 {
+            let what = format!("@\"{}\" in ({} @\"{}\")", printer(*na), op, printer(*nb));
+            expect(&run, &cnt, &format!("{}:comparison-as-unary-test:{}", kind, op), &what, &uevs[k](&s), &f(o).to_string(), json!({"engine":"c15","text":what}));
+          }
         }
+        let what = format!("@\"{}\" between @\"{}\" and @\"{}\"", printer(*na), printer(*nb), printer(*nb));
+        expect(&run, &cnt, &format!("{}:comparison:between", kind), &what, &e_btw(&s), &(o == std::cmp::Ordering::Equal).to_string(), json!({"engine":"c15","text":what}));
+        let what = format!("@\"{}\" in [@\"{}\"..@\"{}\"]", printer(*na), printer(*nb), printer(*nb));
+        expect(&run, &cnt, &format!("{}:comparison:in-interval", kind), &what, &e_ivl(&s), &(o == std::cmp::Ordering::Equal).to_string(), json!({"engine":"c15","text":what}));
       }
     }
   }
